@@ -96,6 +96,25 @@ theorem normalize1_null_row (a : Mat) (i : Nat) (h : vget (norms1 a) i = 0) (j :
   · exact Mat.get_of_col_ge i (Nat.le_of_not_lt hj)
 
 /-- rows of the normalised matrix are the rows of the input divided by their 1-norm -/
+theorem pinv_mul_pos {k w : Rat} (hk : 0 < k) : pinv (k * w) * k = pinv w := by
+  unfold pinv
+  by_cases h : w = 0
+  · simp [h]
+  · have hk' : k ≠ 0 := ne_of_gt hk
+    have : k * w ≠ 0 := mul_ne_zero hk' h
+    rw [if_neg this, if_neg h, one_div, one_div, mul_inv, mul_comm k⁻¹ w⁻¹, mul_assoc, inv_mul_cancel₀ hk', mul_one]
+
+/-- **`normalize` does not depend on the scale of the weights**: multiplying the matrix by any `k > 0` (1e-9, 1e+12 …)
+gives the same normalised matrix — no row is "numerically null" -/
+theorem normalize1_smul (a : Mat) (k : Rat) (hk : 0 < k) (i j : Nat) :
+    (normalize1 (a.smul k)).get i j = (normalize1 a).get i j := by
+  rw [get_normalize1, get_normalize1, vget_norms1, vget_norms1, Mat.smul_nCol]
+  have e : (sumTo a.nCol fun j => |(a.smul k).get i j|) = k * sumTo a.nCol fun j => |a.get i j| := by
+    rw [← sumTo_mul_left]
+    apply sumTo_congr; intro j _
+    rw [Mat.get_smul, abs_mul, abs_of_pos hk]
+  rw [e, Mat.get_smul, ← mul_assoc, pinv_mul_pos hk]
+
 theorem normalize1_proportional (a : Mat) (i j : Nat) :
     (normalize1 a).get i j * vget (norms1 a) i = a.get i j := by
   by_cases h : vget (norms1 a) i = 0
@@ -464,11 +483,21 @@ theorem normalizeSpec1_model (tol : Rat) (ht : 0 ≤ tol) (a : Mat) : NormalizeS
     have := (normalize1_null_row a i h j).1
     unfold normalize1 scaleRows at this
     simp [this]
-  · simp only [h, if_false, List.all_eq_true, List.mem_range]
-    intro j hj
-    apply close_of_eq ht (by linarith)
-    have := normalize1_proportional a i j
-    unfold normalize1 scaleRows at this
-    exact this
+  · simp only [h, if_false, Bool.and_eq_true, List.all_eq_true, List.mem_range]
+    refine ⟨?_, fun j hj => ?_⟩
+    · apply close_of_eq ht (by norm_num)
+      have hr := normalize1_row_norm a i
+      rw [if_neg h, vget_norms1] at hr
+      rw [← hr]
+      have hc : (normalize1 a).nCol = a.nCol := rfl
+      rw [hc]
+      apply sumTo_congr; intro j _
+      rw [rabs_eq_abs]
+      unfold normalize1 scaleRows
+      rfl
+    · apply close_of_eq ht (by linarith)
+      have := normalize1_proportional a i j
+      unfold normalize1 scaleRows at this
+      exact this
 
 end SkNet.Convert
